@@ -110,9 +110,9 @@ Section TieProofs.
     destruct sh as [f d r sn se]. unfold copy_shape_ok. simpl. intros H m i j.
     destruct f, d, r; simpl in H; try discriminate H.
     destruct sn as [[]|]; simpl in H; try discriminate H.
-    unfold rxn_copy_g, rxn_copy. simpl.
+    unfold rxn_copy_g, rxn_copy. cbn [csel cs_find cs_dst cs_refind cs_set_num].
     destruct (zfind i m) as [e|]; auto.
-    rewrite zfind_zins_eq. simpl. apply zins_zins.
+    rewrite zfind_zins_eq. cbn [e_body]. apply zins_zins.
   Qed.
 
   (** *** Rxn_copies *)
@@ -148,7 +148,8 @@ Section TieProofs.
     unfold copies_shape_ok. intros H m n n_end.
     repeat (apply andb_true_iff in H; destruct H as [H ?]).
     apply rparam_eqb_eq in H6. apply rparam_eqb_eq in H5. apply Z.eqb_eq in H4. apply rparam_eqb_eq in H2.
-    destruct (rs_set_num sh) as [sn|] eqn:Esn; simpl in H1; [|discriminate]. apply rparam_eqb_eq in H1. subst sn.
+    destruct (rs_set_num sh) as [sn|] eqn:Esn; [|discriminate H1].
+    assert (sn = RLoop) by (destruct sn; simpl in H1; congruence). subst sn.
     unfold rxn_copies_g, rxn_copies.
     rewrite (means_le_eval _ _ _ _ _ H n n_end 0). simpl.
     destruct (n_end <=? n) eqn:Eg; auto.
@@ -241,23 +242,30 @@ Section TieProofs.
     intro H. destruct (copy_row_diag_eq r H) as (E1 & E2 & E3 & E4 & E5 & E6 & E7).
     unfold copy_row_g. rewrite E1, E2, E3, E4, E5, E6, E7.
     set (kk := cr_count r). unfold nth_req.
-    rewrite (fold_left_nth0
-               (fun (st : store) t =>
+    pose (F := fun (st : store) (t : Z * Z * Z) =>
                   match zfind (t_src t) (st kk) with
                   | Some _ =>
                       fold_left (fun st i => if i =? t_src t then st else supd st kk (rxn_copy (st kk) (t_src t) i))
                                 (copy_targets (t_lo t) (t_hi t)) st
                   | None => st
-                  end) (0, 0, 0) (q kk) st).
+                  end).
+    change (fold_left (fun a j => F a (nth j (q kk) (0, 0, 0))) (seq 0 (length (q kk))) st
+            = supd st kk (fold_left (@copy1 C) (q kk) (st kk))).
+    rewrite fold_left_nth0. unfold F. clear F.
     generalize (q kk) as l. intro l. revert st.
     induction l as [|t l IH]; intro st; simpl.
     - symmetry. apply supd_id.
     - rewrite IH. clear IH.
-      unfold copy1 at 2.
-      destruct (zfind (t_src t) (st kk)) eqn:Ef.
-      + rewrite (inner_copy_fold kk (fun m i => rxn_copy m (t_src t) i) (fun i => i =? t_src t)).
-        rewrite supd_same. rewrite supd_supd. reflexivity.
-      + reflexivity.
+      assert (match zfind (t_src t) (st kk) with
+              | Some _ =>
+                  fold_left (fun st i => if i =? t_src t then st else supd st kk (rxn_copy (st kk) (t_src t) i))
+                            (copy_targets (t_lo t) (t_hi t)) st
+              | None => st
+              end = supd st kk (copy1 (st kk) t)) as Hstep.
+      { unfold copy1. destruct (zfind (t_src t) (st kk)).
+        - rewrite (inner_copy_fold kk (fun m i => rxn_copy m (t_src t) i) (fun i => i =? t_src t)). reflexivity.
+        - symmetry. apply supd_id. }
+      rewrite Hstep. rewrite supd_same. rewrite supd_supd. reflexivity.
   Qed.
 
   Lemma copy_fold_pointwise (q : copy_req) tbl : forallb copy_row_diag tbl = true ->
@@ -291,7 +299,7 @@ Section TieProofs.
   Proof.
     induction ks as [|x ks IH]; intros q k; simpl.
     - rewrite app_nil_r. reflexivity.
-    - rewrite IH. unfold copier_add at 2. unfold kind_count. simpl.
+    - rewrite IH. unfold copier_add. unfold kind_count. simpl.
       destruct (kind_eqb k x); simpl.
       + rewrite <- app_assoc. reflexivity.
       + reflexivity.
@@ -338,7 +346,7 @@ Section TieProofs.
   Theorem gen_prims_eq_hand (T : gen_tables) : tables_ok T = true -> gen_prims C T = hand_prims C.
   Proof.
     unfold tables_ok. intro H.
-    repeat (apply andb_true_iff in H; destruct H as [H ?]).
+    do 8 (apply andb_true_iff in H; destruct H as [H ?]).
     unfold gen_prims, hand_prims. f_equal.
     - apply functional_extensionality. intro m. apply functional_extensionality. intro n.
       apply functional_extensionality. intro n_end. apply rxn_copies_g_ok. assumption.
